@@ -258,6 +258,7 @@ def r06_8(ctx, run, rule='R06.8'):
             n += 1
             spec = DROP_TABLE.get(b.path)
             bad = []
+            unread = []
             for q in its:
                 if not any(c[0][0] == 'discr' and is_call(c[0][1], 'Iterator::next') and c[1] == 'eq' and c[2] == 1 for c in q.conds):
                     continue
@@ -269,7 +270,13 @@ def r06_8(ctx, run, rule='R06.8'):
                     bad.append('an entry is skipped although this editor deletes nothing')
                 elif not spec[1](q.conds):
                     conds = '; '.join(f'{show(c[0])[:40]}={c[2]}' for c in q.conds[-3:])
-                    bad.append(f'an entry is dropped on a path that does not satisfy "{spec[0]}" [{conds}]')
+                    # a test made by a crate-local helper this rule does not know by name (a cursor struct's method, an extracted predicate)
+                    f_ = ctx.facts
+                    helper = [c for c in q.conds if c[0][0] == 'call' and (f_.bodies.get(c[0][1]) is not None or '{closure' in c[0][1])]
+                    if helper:
+                        unread.append(f'an entry is dropped after {canon(helper[-1][0][1]).split("::")[-1]}() answered {helper[-1][2]}; expected condition: "{spec[0]}"')
+                    else:
+                        bad.append(f'an entry is dropped on a path that does not satisfy "{spec[0]}" [{conds}]')
             loc = f"{b.file}:{b.blocks[h]['term'].get('line')}"
             d = f'loop@{sorted(loops).index(h)}'
             import report as _rp
@@ -280,6 +287,8 @@ def r06_8(ctx, run, rule='R06.8'):
                               '(new or renamed): whether only the entries the edit removes are dropped is not decided', loc)
             elif bad:
                 run.violation(rule, b.path, d, '; '.join(sorted(set(bad))[:2]) + ': the output loses a member/element the edit does not remove', loc)
+            elif unread:
+                run.undecided(rule, b.path, d, unread[0] + ': whether that helper expresses the edit\'s own drop condition is not decided', loc)
             else:
                 run.proved(rule, b.path, d, 'every iteration either copies the entry into the builder or drops it under the edit\'s own condition' + (f' ({spec[0]})' if spec else ''), loc)
     run.floor(rule, 'entry-copying loops of the editors', n, 15)
